@@ -2,7 +2,7 @@
 
 In spec/Ceremony.tla the trait call is DEFINED as the direct step sequence, so the obligation is conformance: every
 behaviour explored for C02-C05, C07 and C11 (successful and failing, faults, cancellation) and getInfo in every
-configuration is run twice on authenticators in the same state - through the direct method and through
+configuration, and every status byte a store call can fail with (CerMC_C18status.cfg), is run twice on authenticators in the same state - through the direct method and through
 <Authenticator as Ctap2Api> - as adjacent runs; invariant C18.SameAsDirect (spec/CerProps.tla) demands the same
 terminal event (result with all relying-party verdicts, cancellation point), the same final store and the same number
 of store calls / prompts, and no crash or hang.  The runs execute in isolated child processes (a stack overflow or
@@ -15,14 +15,15 @@ from lib import vlib
 
 LEVEL = "model_checking"
 PREFIXES = ["C18.", "Any.Crash"]
-CONFIGS = [("C18info", 1), ("C11", 1), ("C04", 1), ("C02hist", 1), ("C03", 2), ("C05ref", 4), ("C07", 4)]
+CONFIGS = [("C18info", 1), ("C18status", 1), ("C11", 1), ("C04", 1), ("C02hist", 1), ("C03", 2), ("C05ref", 4), ("C07", 4)]
 
 
 def via_trait(b):
     t = {"cfg": b["cfg"], "store": b["store"], "cers": []}
     for c in b["cers"]:
         c2 = dict(c)
-        c2["api"] = "trait"
+        if c["api"] == "ctap2":
+            c2["api"] = "trait"
         t["cers"].append(c2)
     return t
 
